@@ -177,7 +177,7 @@ def _case_general(b1_squared, m0_squared, m2b2, radius, sin_directions):
     radius_m0_squared = radius * m0_squared
     radius_sin_directions = radius * sin_directions
     if radius_m0_squared > b1:
-        s_hat2 = abs(m0_squared * b1_squared ** (2.0 / 3.0) - b1_squared)  # TODO why can this be negative?
+        s_hat2 = (radius_m0_squared * b1_squared) ** (2.0 / 3.0) - b1_squared
         s_hat = math.sqrt(s_hat2) / sin_directions
         g_hat = radius_m0_squared * s_hat / math.sqrt(
             m0_squared * s_hat * s_hat + b1_squared)
